@@ -200,7 +200,7 @@ def shard_pause_sweep(prop: str, tier: str, seed: int, name: str) -> dict[str, A
     spec = core_corpus()[name]
     fifo = {"style": "fifo", "d": [], "R": 2}
     steps = Run(spec, make_schedule(fifo)).drain().steps
-    sds = [fifo] + ([{"style": "uniform", "d": [2, 2], "R": 2}, {"style": "hold", "d": [], "R": 2, "hold": "CompleteWorkflow", "hold_for": 4}] if tier == "thorough" else [])
+    sds = [fifo]
     for at in range(steps + 2):
         for sd in sds:
             pause_case(c, spec, sd, at)
